@@ -88,6 +88,7 @@ class Stream(OFD):
         self.rx_total = 0
         self.io_times: Optional[List[Tuple[float, str, int]]] = None
         self.on_data: Optional[Callable[[], None]] = None
+        self.dead = False           # the connection no longer exists (reset seen, or closed both ways)
         self.t_end: Optional[float] = None      # first shutdown(WR) / close / reset by the owner
         self.on_end: Optional[Callable[['Stream'], None]] = None
 
@@ -130,6 +131,8 @@ class Stream(OFD):
             raise OSError(errno.EBADF, 'Bad file descriptor')
         if self.err is not None:
             e, self.err = self.err, None
+            self.dead = True
+            self.wr_shut = True
             if e == errno.EPIPE:
                 raise BrokenPipeError(errno.EPIPE, 'Broken pipe')
             raise OSError(e, 'so_error')
@@ -138,6 +141,7 @@ class Stream(OFD):
             self.rst_rcvd = False
             self.wr_shut = True
             self.fin_rcvd = True
+            self.dead = True
             raise ConnectionResetError(errno.ECONNRESET, 'Connection reset by peer')
         if self.wr_shut:
             raise BrokenPipeError(errno.EPIPE, 'Broken pipe')
@@ -183,10 +187,13 @@ class Stream(OFD):
             self.rst_rcvd = False
             self.fin_rcvd = True
             self.wr_shut = True
+            self.dead = True
             raise ConnectionResetError(errno.ECONNRESET, 'Connection reset by peer')
         if self.err is not None:
             e, self.err = self.err, None
             self.fin_rcvd = True
+            self.dead = True
+            self.wr_shut = True
             if e == errno.EPIPE:
                 raise BrokenPipeError(errno.EPIPE, 'Broken pipe')
             raise OSError(e, 'so_error')
@@ -195,7 +202,9 @@ class Stream(OFD):
     def k_shutdown_wr(self) -> None:
         if self.closed:
             raise OSError(errno.EBADF, 'Bad file descriptor')
-        if self.rst_rcvd or (self.peer is not None and self.peer.closed and self.err is not None):
+        if self.rst_rcvd or self.dead or (self.peer is not None and self.peer.closed and self.err is not None) \
+                or (self.wr_shut and self.fin_rcvd):
+            # reset by the peer, or already closed in both directions: the connection is gone
             raise OSError(errno.ENOTCONN, 'Transport endpoint is not connected')
         if not self.wr_shut:
             self._ended()
@@ -510,6 +519,7 @@ class World:
         self.timers: List[Tuple[float, int, Callable[[], None]]] = []
         self.aux_rng = tape.fork_rng('aux')
         self.closes_bad: List[Tuple[int, int, str]] = []
+        self.gc_closed_labels: List[str] = []
         self.hung = False
         self.deadlock = False
         self.failures: List[Tuple[str, str, str]] = []   # (oracle, signature, message)
@@ -764,10 +774,14 @@ class World:
             me.cond = cond
             me.deadline = None if timeout is None else self.now + timeout
         me.waiting_on = what
+        t_block = self.now
         nxt = self._pick(me)
         if nxt is not me:
             self._switch(me, nxt)
         # resumed
+        if what in ('connect', 'send', 'recv'):
+            # time this thread spent inside a blocking socket call (e.g. a 10 s connect timeout)
+            me.blocked_total = getattr(me, 'blocked_total', 0.0) + (self.now - t_block)
         ok = True
         if not me.runnable:
             ok = bool(me.cond is not None and me.cond())
